@@ -267,7 +267,75 @@ def run(seed, tier, driver):
                     res.stats.skipped += 1
                     continue
                 res.fail('C02', what, {'cfg': conf, 'events': list(p.trace), 'prefix_len': len(pre)}, key=key)
+    if tier != 'search':
+        shipped_application(res)
     return res
+
+
+class _ImplOnly(object):
+    """what continue_coop needs of a Pair, for runs on the implementation alone"""
+
+    def __init__(self, sim, conf):
+        self.sim = sim
+        self.conf = conf
+        self.last = None
+        self.trace = []
+
+    def step(self, ev):
+        self.last = self.sim.step(ev)
+        self.trace.append(ev)
+        return self.last
+
+
+def shipped_application(res):
+    """The same question with the application the agent ships as its handler (DefaultHandler: message logging to disk, the
+    files rotating): a session long enough for the log to rotate a few times, the peer restarts, then the cooperative peer -
+    the agent must come back exactly as with any other application.  Implementation only."""
+    import random
+    import shutil as _sh
+    import os
+    import impl_msglog as IM
+    root = os.path.join(IM.SCRATCH_ROOT, 'scratch_heal_%d' % os.getpid())
+    CONF = IM.CONF
+    for peer_addr, nupd in (('10.0.0.2', 14), ('2001:DB8::2', 3)):
+        _sh.rmtree(root, ignore_errors=True)
+        os.makedirs(root)
+        for k, v in (('write_disk', True), ('write_dir', root), ('write_msg_max_size', 600), ('write_keepalive', True)):
+            CONF.set_override(k, v, group='message')
+        try:
+            conf = {'hold_time': 30, 'idle_hold_time': 5, 'remote_addr': peer_addr}
+            full = dict(S.DEFAULT_CFG); full.update(conf)
+            pool = dict(SG.message_pool(full['remote_as']))
+            sim = S.Sim(conf)
+            real = IM.dh.DefaultHandler()
+            real.init()
+            rec = sim.handler
+            for name in ('on_update_error', 'update_received', 'keepalive_received', 'open_received', 'send_open',
+                         'route_refresh_received', 'notification_received', 'on_connection_lost', 'on_connection_failed',
+                         'on_established'):
+                if not hasattr(rec, name) or not hasattr(real, name):
+                    continue
+
+                def both(*a, _r=getattr(rec, name), _d=getattr(real, name), **kw):
+                    _r(*a, **kw)
+                    return _d(*a, **kw)
+                setattr(rec, name, both)
+            p = _ImplOnly(sim, dict(conf, application='shipped DefaultHandler'))
+            for ev in [{'k': 'boot'}, {'k': 'connok', 'c': 0}, {'k': 'chunk', 'c': 0, 'hex': pool['open_ok'].hex()},
+                       {'k': 'chunk', 'c': 0, 'hex': pool['keepalive'].hex()}] + \
+                      [{'k': 'chunk', 'c': 0, 'hex': pool['update_ok' if i % 2 == 0 else 'update_withdraw'].hex()} for i in range(nupd)]:
+                if sim.enabled(ev):
+                    p.step(ev)
+            f = continue_coop(p, full, random.Random(1), res, None)
+            res.stats.case(('heal-shipped', peer_addr), sample=None)
+            res.stats.hit('shipped_application')
+            if f is not None and f[0] != 'coop-event-disabled':
+                res.fail('C02', f[1] + ' (application: the shipped DefaultHandler, disk logging on, rotation every 600 octets, peer %s)' % peer_addr,
+                         {'cfg': dict(conf, application='shipped DefaultHandler'), 'events': list(p.trace)}, key='shipped-' + f[0])
+        finally:
+            for k in ('write_disk', 'write_dir', 'write_msg_max_size', 'write_keepalive'):
+                CONF.clear_override(k, group='message')
+            _sh.rmtree(root, ignore_errors=True)
 
 
 def replay_witness(wit, driver):
